@@ -339,3 +339,205 @@ Qed.
 Theorem inv_reach cap handler evs s rs :
   run true (init_q cap handler) evs = Some (s, rs) -> Inv s.
 Proof. apply inv_run. apply inv_init. Qed.
+
+(* ------------------------------------------------------------------ frame lemmas (both semantics) *)
+(* case analysis of one step: afterwards [s'] is an explicit record *)
+Ltac step_inv H :=
+  unfold step, stop, put, upd_wk in H;
+  repeat match type of H with
+         | context [match ?x with _ => _ end] => destruct x eqn:?
+         end;
+  try discriminate; injection H as <- <-.
+
+Lemma step_cfg fixed s ev s' r : step fixed s ev = Some (s', r) ->
+  q_cap s' = q_cap s /\ q_handler s' = q_handler s.
+Proof. intro H. destruct ev; step_inv H; prj; auto. Qed.
+
+Lemma run_cfg fixed evs : forall s s' rs, run fixed s evs = Some (s', rs) ->
+  q_cap s' = q_cap s /\ q_handler s' = q_handler s.
+Proof.
+  induction evs as [|ev evs IH]; intros s s' rs H; cbn [run] in H.
+  - injection H as <- _. auto.
+  - destruct (step fixed s ev) as [[s1 x]|] eqn:E; [|discriminate].
+    destruct (run fixed s1 evs) as [[s2 xs]|] eqn:E2; [|discriminate].
+    injection H as <- _. apply step_cfg in E. apply IH in E2. destruct E, E2. split; congruence.
+Qed.
+
+(* only the completion of a call of the wrapped sink touches the delivery log, the handler log
+   and the panic counter *)
+Lemma step_actor fixed s ev s' r : step fixed s ev = Some (s', r) -> ~ is_finish ev ->
+  q_delivered s' = q_delivered s /\ q_handled s' = q_handled s /\ q_panics s' = q_panics s.
+Proof. intros H N. destruct ev; try (exfalso; apply N; exact I); step_inv H; prj; auto. Qed.
+
+(* what the completion of a call does, exactly *)
+Lemma step_finish_spec fixed s o s' r : step fixed s (EWFinish o) = Some (s', r) ->
+  exists id, q_wk s = WCounted id /\ q_wk s' = WRecv /\ r = RNone /\
+    q_delivered s' = q_delivered s ++ [(id, o)] /\
+    q_handled s' = q_handled s ++ match o with
+                                  | SErr e => if q_handler s then [(id, e)] else []
+                                  | _ => []
+                                  end /\
+    q_panics s' = q_panics s + match o with SPanic => 1 | _ => 0 end /\
+    q_chan s' = q_chan s /\ q_handles s' = q_handles s /\ q_pill_pending s' = q_pill_pending s /\
+    q_accepted s' = q_accepted s /\ q_submitted s' = q_submitted s /\ q_drained s' = q_drained s /\
+    q_pending_inc s' = q_pending_inc s.
+Proof.
+  intro H. cbn [step] in H. destruct (q_wk s) as [| |id|] eqn:Ew; try discriminate.
+  injection H as <- <-. exists id. prj.
+  repeat split; try reflexivity.
+  - destruct o; [rewrite app_nil_r; reflexivity | | rewrite app_nil_r; reflexivity].
+    destruct (q_handler s); [reflexivity | rewrite app_nil_r; reflexivity].
+  - destruct o; lia.
+Qed.
+
+Lemma finish_enabled fixed s id o : q_wk s = WCounted id ->
+  exists s', step fixed s (EWFinish o) = Some (s', RNone).
+Proof. intro E. cbn [step]. rewrite E. eexists. reflexivity. Qed.
+
+(* background events leave the handles and the acceptance count alone and return nothing *)
+Lemma step_worker_side fixed s ev s' r : step fixed s ev = Some (s', r) -> worker_side ev ->
+  q_handles s' = q_handles s /\ q_accepted s' = q_accepted s /\ r = RNone.
+Proof. intros H W. destruct ev; try (exfalso; exact W); step_inv H; prj; auto. Qed.
+
+(* the result of an event; the acceptance count *)
+Lemma step_result fixed s ev s' r : step fixed s ev = Some (s', r) ->
+  match r with
+  | ROk => ev = ETrySend /\ room s = true /\ q_accepted s' = S (q_accepted s)
+  | RFull => ev = ETrySend /\ room s = false /\ s' = s
+  | RNone => ev <> ETrySend /\ q_accepted s' = q_accepted s
+  end.
+Proof.
+  intro H. destruct ev.
+  - cbn [step] in H. destruct (q_handles s); [discriminate|].
+    destruct (room s) eqn:Er; injection H as <- <-; auto.
+    split; [reflexivity|]. split; [reflexivity|]. unfold put. destruct (q_cap s) as [[|c]|]; reflexivity.
+  - step_inv H; prj; split; [discriminate | reflexivity].
+  - step_inv H; prj; split; [discriminate | reflexivity].
+  - step_inv H; prj; split; try discriminate; reflexivity.
+  - step_inv H; prj; split; try discriminate; reflexivity.
+  - step_inv H; prj; split; try discriminate; reflexivity.
+  - step_inv H; prj; split; try discriminate; reflexivity.
+  - step_inv H; prj; split; try discriminate; reflexivity.
+  - step_inv H; prj; split; try discriminate; reflexivity.
+  - step_inv H; prj; split; try discriminate; reflexivity.
+Qed.
+
+Lemma step_accepted fixed s ev s' r : step fixed s ev = Some (s', r) ->
+  q_accepted s' = q_accepted s + count_ok [r].
+Proof.
+  intro H. apply step_result in H. unfold count_ok. destruct r; cbn [filter length].
+  - destruct H as (_ & _ & ->). lia.
+  - destruct H as (_ & _ & ->). lia.
+  - destruct H as (_ & ->). lia.
+Qed.
+
+Lemma count_ok_cons r rs : count_ok (r :: rs) = count_ok [r] + count_ok rs.
+Proof. unfold count_ok. cbn [filter]. destruct r; reflexivity. Qed.
+
+Lemma run_accepted fixed evs : forall s s' rs, run fixed s evs = Some (s', rs) ->
+  q_accepted s' = q_accepted s + count_ok rs /\ length rs = length evs.
+Proof.
+  induction evs as [|ev evs IH]; intros s s' rs H; cbn [run] in H.
+  - injection H as <- <-. cbn. split; lia.
+  - destruct (step fixed s ev) as [[s1 x]|] eqn:E; [|discriminate].
+    destruct (run fixed s1 evs) as [[s2 xs]|] eqn:E2; [|discriminate].
+    injection H as <- <-. apply step_accepted in E. apply IH in E2. destruct E2 as [E2 E3].
+    rewrite count_ok_cons. cbn [length]. split; lia.
+Qed.
+
+(* room is a function of the capacity, the channel length and whether the worker waits in recv *)
+Lemma room_spec s :
+  room s = match q_cap s with
+           | None => true
+           | Some 0 => is_recv (q_wk s) && (length (q_chan s) =? 0)
+           | Some (S c) => length (q_chan s) <? S c
+           end.
+Proof.
+  unfold room. destruct (q_cap s) as [[|c]|]; try reflexivity.
+  destruct (q_wk s), (q_chan s); reflexivity.
+Qed.
+
+Lemma trysend_spec fixed s : q_handles s <> 0 ->
+  exists s', step fixed s ETrySend = Some (s', if room s then ROk else RFull).
+Proof.
+  intro Hh. cbn [step]. destruct (q_handles s); [congruence|].
+  destruct (room s); eexists; reflexivity.
+Qed.
+
+Lemma trysend_live fixed s s' r : step fixed s ETrySend = Some (s', r) -> q_handles s <> 0.
+Proof. cbn [step]. destruct (q_handles s); [discriminate | discriminate]. Qed.
+
+(* dropping a live handle is one enabled step that returns nothing *)
+Lemma droph_spec fixed s : q_handles s <> 0 ->
+  exists s', step fixed s EDropH = Some (s', RNone) /\ S (q_handles s') = q_handles s /\
+             q_delivered s' = q_delivered s /\ q_accepted s' = q_accepted s.
+Proof.
+  intro Hh. cbn [step]. destruct (q_handles s) as [|h]; [congruence|].
+  eexists. split; [reflexivity|].
+  destruct fixed, h; unfold stop, put; prj;
+    repeat match goal with |- context [match ?x with _ => _ end] => destruct x end; prj; auto.
+Qed.
+
+(* monotonicity: counters never decrease, logs are only extended *)
+Definition extends {A} (l l' : list A) : Prop := exists t, l' = l ++ t.
+
+Lemma extends_refl {A} (l : list A) : extends l l.
+Proof. exists []. rewrite app_nil_r. reflexivity. Qed.
+
+Lemma extends_trans {A} (a b c : list A) : extends a b -> extends b c -> extends a c.
+Proof. intros [t ->] [u ->]. exists (t ++ u). rewrite app_assoc. reflexivity. Qed.
+
+Record Mono (s s' : qstate) : Prop := {
+  M_accepted : q_accepted s <= q_accepted s';
+  M_submitted : q_submitted s <= q_submitted s';
+  M_drained : q_drained s <= q_drained s';
+  M_panics : q_panics s <= q_panics s';
+  M_delivered : extends (q_delivered s) (q_delivered s');
+  M_handled : extends (q_handled s) (q_handled s');
+  M_samples : extends (q_samples s) (q_samples s')
+}.
+
+Lemma mono_refl s : Mono s s.
+Proof. constructor; try lia; apply extends_refl. Qed.
+
+Lemma mono_trans a b c : Mono a b -> Mono b c -> Mono a c.
+Proof. intros [] []. constructor; try lia; eapply extends_trans; eassumption. Qed.
+
+Lemma step_mono fixed s ev s' r : step fixed s ev = Some (s', r) -> Mono s s'.
+Proof.
+  intro H. destruct ev; step_inv H; constructor; prj; try lia; try apply extends_refl;
+    eexists; reflexivity.
+Qed.
+
+Lemma run_mono fixed evs : forall s s' rs, run fixed s evs = Some (s', rs) -> Mono s s'.
+Proof.
+  induction evs as [|ev evs IH]; intros s s' rs H; cbn [run] in H.
+  - injection H as <- _. apply mono_refl.
+  - destruct (step fixed s ev) as [[s1 x]|] eqn:E; [|discriminate].
+    destruct (run fixed s1 evs) as [[s2 xs]|] eqn:E2; [|discriminate].
+    injection H as <- _. eapply mono_trans; [eapply step_mono; exact E | eapply IH; exact E2].
+Qed.
+
+Lemma run_app fixed evs1 : forall evs2 s s1 rs1 s2 rs2,
+  run fixed s evs1 = Some (s1, rs1) -> run fixed s1 evs2 = Some (s2, rs2) ->
+  run fixed s (evs1 ++ evs2) = Some (s2, rs1 ++ rs2).
+Proof.
+  induction evs1 as [|ev evs1 IH]; intros evs2 s s1 rs1 s2 rs2 H1 H2; cbn [run app] in *.
+  - injection H1 as <- <-. exact H2.
+  - destruct (step fixed s ev) as [[s0 x]|]; [|discriminate].
+    destruct (run fixed s0 evs1) as [[s3 xs]|] eqn:E; [|discriminate].
+    injection H1 as <- <-. rewrite (IH evs2 s0 s3 xs s2 rs2 E H2). reflexivity.
+Qed.
+
+Lemma run_split fixed evs1 : forall evs2 s s2 rs,
+  run fixed s (evs1 ++ evs2) = Some (s2, rs) ->
+  exists s1 rs1 rs2, run fixed s evs1 = Some (s1, rs1) /\ run fixed s1 evs2 = Some (s2, rs2) /\
+                     rs = rs1 ++ rs2.
+Proof.
+  induction evs1 as [|ev evs1 IH]; intros evs2 s s2 rs H; cbn [run app] in *.
+  - exists s, [], rs. auto.
+  - destruct (step fixed s ev) as [[s0 x]|]; [|discriminate].
+    destruct (run fixed s0 (evs1 ++ evs2)) as [[s3 xs]|] eqn:E; [|discriminate].
+    injection H as <- <-. apply IH in E. destruct E as (s1 & rs1 & rs2 & E1 & E2 & ->).
+    rewrite E1. exists s1, (x :: rs1), rs2. auto.
+Qed.
